@@ -6,14 +6,18 @@ typedef struct { size_t pos; } occ_t;       /* reference to the occurrence at a 
 typedef struct { _Bool has; process_result v; } optres_t;
 extern size_t g_len; extern unsigned g_epoch;          /* abstract pool: number of occurrences, iterator epoch */
 extern unsigned g_dispatches; extern size_t g_erased;
+extern unsigned g_nodefbit;    /* ghost: dispatches whose outcome carries no DEFERRED bit: each starts a new deferral cycle (so that occurrences deferred before become eligible again) */
 extern size_t g_nondef;        /* ghost: dispatches whose outcome was anything but 'only deferred again': each is one PROCESSED event of the drain's budget, handled or not */
 #define SIZE_CAP 1000000
+extern _Bool g_marked_here;      /* ghost: whether the occurrence the scan currently looks at is marked for deletion */
+extern _Bool g_must_erase;       /* ghost: the scan has seen that the occurrence it looks at is processed and has not removed it yet */
 pit_t pool_begin(fsm_t* self)
-__CPROVER_assigns()
+__CPROVER_assigns(g_marked_here)          /* another position: nothing known about its mark */
 __CPROVER_ensures(__CPROVER_return_value.pos == 0 && __CPROVER_return_value.epoch == g_epoch)
 ;
 _Bool pit_ne_end(fsm_t* self, pit_t it)
 __CPROVER_requires(it.epoch == g_epoch)                                          /*@ob C20.no-stale-iterator-compared */
+__CPROVER_requires(!g_must_erase)                                                /*@ob C04,C20.a-processed-occurrence-is-removed-from-the-pool-before-the-scan-goes-on */
 __CPROVER_assigns()
 __CPROVER_ensures(__CPROVER_return_value == (it.pos != g_len))
 ;
@@ -22,16 +26,15 @@ __CPROVER_requires(it.epoch == g_epoch && it.pos < g_len)                       
 __CPROVER_assigns()
 __CPROVER_ensures(__CPROVER_return_value.pos == it.pos)
 ;
-extern _Bool g_marked_here;      /* ghost: whether the occurrence the scan currently looks at is marked for deletion */
 _Bool occ_marked(occ_t ev)
-__CPROVER_assigns()
-__CPROVER_ensures(__CPROVER_return_value == g_marked_here)
+__CPROVER_assigns(g_must_erase)
+__CPROVER_ensures(__CPROVER_return_value == g_marked_here && g_must_erase == g_marked_here)
 ;
 pit_t pool_erase(fsm_t* self, pit_t it)
 __CPROVER_requires(it.epoch == g_epoch && it.pos < g_len)                        /*@ob C20.erase-of-a-valid-iterator */
 __CPROVER_requires(g_marked_here)                                                /*@ob C04,C05.only-processed-occurrences-are-removed */
-__CPROVER_assigns(g_len, g_erased, g_marked_here)
-__CPROVER_ensures(g_len == __CPROVER_old(g_len) - 1 && g_erased == __CPROVER_old(g_erased) + 1)
+__CPROVER_assigns(g_len, g_erased, g_marked_here, g_must_erase)
+__CPROVER_ensures(!g_must_erase && g_len == __CPROVER_old(g_len) - 1 && g_erased == __CPROVER_old(g_erased) + 1)
 __CPROVER_ensures(__CPROVER_return_value.pos == it.pos && __CPROVER_return_value.epoch == g_epoch)
 ;
 pit_t pit_inc(pit_t it)
@@ -44,17 +47,19 @@ optres_t occ_try_process(occ_t ev, fsm_t* self, uint16_t seq)
 __CPROVER_requires(!g_marked_here)                                               /*@ob C04,C05.a-processed-occurrence-is-never-dispatched-again */
 __CPROVER_requires(seq == self->event_pool.cur_seq_cnt)                          /*@ob C05.current-cycle-number-passed-to-the-occurrence */
 __CPROVER_requires(ev.pos < g_len)
-__CPROVER_assigns(g_len, g_epoch, g_dispatches, g_marked_here, g_nondef)
+__CPROVER_assigns(g_len, g_epoch, g_dispatches, g_marked_here, g_nondef, g_nodefbit)
+__CPROVER_ensures(g_nodefbit == __CPROVER_old(g_nodefbit) + ((__CPROVER_return_value.has && !((int)__CPROVER_return_value.v & HANDLED_DEFERRED)) ? 1 : 0))
 __CPROVER_ensures(g_nondef == __CPROVER_old(g_nondef) + ((__CPROVER_return_value.has && (int)__CPROVER_return_value.v != HANDLED_DEFERRED) ? 1 : 0))
 __CPROVER_ensures(__CPROVER_return_value.has ==> (g_dispatches == __CPROVER_old(g_dispatches) + 1 && g_dispatches > __CPROVER_old(g_dispatches) && g_len >= __CPROVER_old(g_len) && g_len < SIZE_CAP && g_marked_here))
 __CPROVER_ensures(!__CPROVER_return_value.has ==> (g_dispatches == __CPROVER_old(g_dispatches) && g_len == __CPROVER_old(g_len) && g_epoch == __CPROVER_old(g_epoch) && !g_marked_here))
 __CPROVER_ensures(0 <= (int)__CPROVER_return_value.v && (int)__CPROVER_return_value.v <= 7)
 ;
 size_t do_process_event_pool(fsm_t* self, size_t max_events)
-__CPROVER_requires(__CPROVER_is_fresh(self, sizeof(*self)) && 1 <= g_len && g_len < SIZE_CAP && max_events >= 1 && g_dispatches == 0 && g_erased == 0 && g_nondef == 0)
-__CPROVER_assigns(self->event_pool.cur_seq_cnt, g_len, g_epoch, g_dispatches, g_erased, g_marked_here, g_nondef)
+__CPROVER_requires(__CPROVER_is_fresh(self, sizeof(*self)) && 1 <= g_len && g_len < SIZE_CAP && max_events >= 1 && g_dispatches == 0 && g_erased == 0 && g_nondef == 0 && g_nodefbit == 0 && !g_must_erase)
+__CPROVER_assigns(g_must_erase, self->event_pool.cur_seq_cnt, g_len, g_epoch, g_dispatches, g_erased, g_marked_here, g_nondef, g_nodefbit)
 __CPROVER_ensures(__CPROVER_return_value <= g_dispatches)                        /*@ob C04.processed-count-counts-only-dispatched-occurrences */
 __CPROVER_ensures(__CPROVER_return_value <= max_events)                          /*@ob C04.single-step-variant-stops-after-max-events */
 __CPROVER_ensures(__CPROVER_return_value == g_nondef)                            /*@ob C04.every-dispatched-event-counts-as-processed-whether-or-not-it-was-handled */
+__CPROVER_ensures(g_nondef < max_events ==> self->event_pool.cur_seq_cnt == (uint16_t)(__CPROVER_old(self->event_pool.cur_seq_cnt) + g_nodefbit))   /*@ob C05.a-new-deferral-cycle-after-every-dispatch-that-did-not-defer-again-and-only-then */
 __CPROVER_ensures(g_nondef <= max_events)                                        /*@ob C04.a-bounded-drain-dispatches-at-most-max-events-events-the-single-step-exactly-the-oldest */
 ;
